@@ -292,7 +292,7 @@ def gen_spec(rng, idx, small=False):
         "dm": rng.choice([1.0, 1.0, 0.5, 1.3, 2.0]),
         "default_pattern": rng.choice(["keep", "keep", None] + pnames),
         "patterns": pats, "junctions": juncs, "reservoirs": res, "tanks": tanks, "pipes": pipes, "pumps": pumps, "valves": valves,
-        "energy": {"eff": eff, "price": rng.choice([0, 3.61e-8, 1e-7]), "pump_price": rng.choice([None, None, 5e-8])},
+        "energy": {"eff": eff, "price": rng.choice([0, 3.61e-8, 1e-7]), "pump_price": rng.choice([None, None, 5e-8, 0.0, 0.0])},
     }
     return spec
 
